@@ -137,6 +137,8 @@ class KProperty:
     rule: str = ""
     post: Callable | None = None
     ld_symbols: tuple | None = None  # (angular momentum symbol, meson radius symbol) used by build()
+    extra_modules: Callable | None = None  # (chk, tier, seed) -> further Lean modules to prove (regenerates them)
+    extra_regenerate: Callable | None = None
 
     # ---- generated files
     def _paths(self):
@@ -163,6 +165,8 @@ class KProperty:
         _, header = self._header()
         kdefs, _, info = self.build()
         self._write(kdefs, header, info.get("gen_extra", ""))
+        if self.extra_regenerate is not None:
+            self.extra_regenerate()
 
     # ---- run
     def run(self, tier: str, seed: int) -> int:  # noqa: C901, PLR0912, PLR0915
@@ -197,8 +201,11 @@ class KProperty:
             chk.info("facts", facts)
 
         if translated:
-            res = common.prove(self.prop_id, self.prop_modules)
-            chk.record_proof(res, "cd lean && lake build " + " ".join(self.prop_modules)
+            modules = list(self.prop_modules)
+            if self.extra_modules is not None:
+                modules += self.extra_modules(chk, tier, seed)
+            res = common.prove(self.prop_id, modules)
+            chk.record_proof(res, "cd lean && lake build " + " ".join(modules)
                              + f" && lake env lean Ampverif/Audit/{self.prop_id}.lean")
             if res["failed"]:
                 chk.note("proof obligations not discharged: "
